@@ -27,6 +27,10 @@ func runC11(c *Ctx) {
 	if eb := c.P.LangFunc("(*Evaluator).evalBinaryExpr"); eb != nil {
 		c.shared("R7", "C05/R4", "division by zero is a fault that stops the run: every float division / integer remainder in the evaluator is dominated by the zero test and the error return", nil, func(s *Ctx) { c05ZeroGuard(s, eb) })
 	}
+	if eb := c.P.LangFunc("(*Evaluator).evalBinaryExpr"); eb != nil {
+		c.shared("R9", "C05/R7", "an invalid regex is a fault at every evaluation: the pattern is compiled in this evaluation and the compile error is returned (a compiled regex remembered from an earlier evaluation would hide it)", ruleIs("R7"), func(s *Ctx) { c05Regex(s, eb) })
+	}
+	c.shared("R10", "C05/R8", "comparing containers is a fault whatever the other operand is: Compare rejects arrays and objects before any comparison", keyHas("Compare containers"), c05Coercions)
 	c.shared("R8", "C13/R5", "a syntax error anywhere pre-empts execution only if the lexer reads the whole text: EOF is produced only at the real end of the text, never on a byte value", keyHas("eof-at-end-only"), c13Operators)
 }
 
